@@ -66,6 +66,8 @@ def run(ctx):
         "one case = one complete scenario (both histories, final flags, threads, sockets); non-trivial = association established"
     )
     ctx.assumptions.append("real thread interleavings are sampled (shaken), not enumerated; timing margin = 3 x timeout + 2 s")
+    pair_lockstep(ctx)
+    pause_check(ctx)
     scenarios = [e2e.gen_scenario(ctx.rng) for _ in range(ctx.n(120, 4000))]
     # directed scenarios: simultaneous release, abort during release, simultaneous abort
     for req_last, acc in (("release", "release"), ("release", "abort"), ("abort", "release"), ("abort", "abort")):
@@ -104,10 +106,351 @@ def run(ctx):
             ctx.fail("c06:thread-died:" + died[0][0], f"thread died: {died[0]} (script {sc})", case)
 
 
+# ---------------------------------------------------------------------------------------------
+# product lockstep: two real reactors joined by the harness vs Model/Pair.lean
+# ---------------------------------------------------------------------------------------------
+LOCAL = ["accept", "reject", "pdata", "releaseRq", "releaseRp", "abort", "pabort"]
+LOCAL_EVT = {"assocRq": 1, "accept": 7, "reject": 8, "pdata": 9, "releaseRq": 11, "releaseRp": 14, "abort": 15, "pabort": 15}
+
+
+def drive_pair(rng, mode):
+    """Interpret an adaptively generated product schedule on two real reactor threads.
+
+    mode "sync": both local users are synchronously admissible (a primitive only at a quiescent point of their own
+                 reactor and only where PS3.8 defines it, ARTIM expiry only at quiescent points), no injected send
+                 failure, and no local abort while a confirmation is outstanding (Sta5/7/11) - the hypotheses of
+                 C06_provider_agreement;
+         "racy": anything, any time.
+    Returns (effective schedule, observations, errors of both reactor threads)."""
+    from harness.pairlock import RealPair
+    from harness.props.c05 import defined
+
+    rp = RealPair()
+    eff, obs = [], []
+
+    def do(st):
+        rp.step(st)
+        eff.append(st)
+        obs.append(rp.obs())
+
+    def side(s):
+        return rp.r if s == "r" else rp.a
+
+    def ab(s):
+        do([s, "a"])
+        do([s, "b"])
+
+    def quiescent(s):
+        d = side(s)
+        o = d.obs()
+        return d.gate.at == "iter" and not o[1] and not o[2] and d.dul.is_alive()
+
+    def settle(s, limit=6):
+        for _ in range(limit):
+            if quiescent(s) or not side(s).dul.is_alive():
+                return
+            ab(s)
+
+    def local(s, p):
+        if s == "a" and not rp.up:
+            return
+        if mode == "sync":
+            settle(s)
+            if not quiescent(s):
+                return
+            sta = side(s).obs()[0]
+            if not defined(LOCAL_EVT[p], sta) or (p in ("abort", "pabort") and sta in (5, 7, 11)):
+                return
+        do([s, ["local", p]])
+        ab(s)
+
+    try:
+        depth = rng.choice([0, 2, 4, 6, 8, 8, 8, 8, 8])
+        if rng.random() < 0.04:
+            do(["r", "connectWillFail"])
+        script = [
+            lambda: do(["r", ["local", "assocRq"]]), lambda: ab("r"), lambda: ab("r"), lambda: do("deliverRA"),
+            lambda: ab("a"), lambda: ab("a"), lambda: local("a", "accept" if rng.random() < 0.88 else "reject"),
+            lambda: do("deliverAR"), lambda: ab("r"),
+        ]
+        for f in script[: depth + 1]:
+            f()
+        tour = rng.random()
+        if depth >= 8 and tour < 0.35:
+            # release by either side, possibly colliding
+            first = rng.choice("ra")
+            local(first, "releaseRq")
+            if rng.random() < 0.4:
+                local("a" if first == "r" else "r", "releaseRq")
+        for _ in range(rng.choice([4, 8, 16, 24])):
+            k = rng.random()
+            s = rng.choice("ra")
+            if k < 0.35:
+                ab(s)
+            elif k < 0.45:
+                do([s, rng.choice("ab")])
+            elif k < 0.70:
+                do(rng.choice(["deliverRA", "deliverAR"]))
+            elif k < 0.90:
+                st = side(s).obs()[0]
+                cands = [p for p in LOCAL if defined(LOCAL_EVT[p], st)] if mode == "sync" else LOCAL
+                if cands:
+                    local(s, rng.choice(cands))
+            elif k < 0.95:
+                if mode != "sync" or quiescent(s):
+                    if s == "r" or rp.up:
+                        do([s, "artimFire"])
+            elif k < 0.97 and mode != "sync":
+                do([s, "break"])
+            else:
+                ab(s)
+        for _ in range(rng.choice([4, 10])):  # let it run out
+            ab("r")
+            do("deliverRA")
+            ab("a")
+            do("deliverAR")
+        return eff, obs, [list(rp.r.errors), list(rp.a.errors)]
+    finally:
+        rp.close()
+
+
+def _canon_pair(mo):
+    from harness.props.c05 import canon_model
+
+    b = lambda x: x == "T" or x is True
+
+    def side(m):
+        return [canon_model(m[0]), list(m[1]), m[2], b(m[3])]
+
+    return [side(mo[0]), side(mo[1]), b(mo[2]), mo[3], mo[4], b(mo[5]), b(mo[6])]
+
+
+def pair_lockstep(ctx):
+    n = ctx.n(120, 2500)
+    pending = []
+    for i in range(n):
+        mode = "sync" if i % 3 != 2 else "racy"
+        try:
+            eff, obs, errors = drive_pair(ctx.rng, mode)
+        except Exception as exc:
+            ctx.diff(["pair", mode, "?"], repr(exc), "n/a", "product lockstep harness failed")
+            continue
+        case = ["pair", mode, eff]
+        fin = obs[-1] if obs else None
+        est = any(o[0][0][0] == 6 and o[1][0][0] == 6 for o in obs)
+        ctx.case(case, nontrivial=est, kind=f"pair:{mode}:" + ("established" if est else "not-established"))
+        pending.append((case, obs, errors))
+        if fin is None:
+            continue
+        r, a = fin[0], fin[1]
+        ended = lambda sd: sd[0][5] and not sd[0][6]
+        if mode == "sync":
+            for nm, sd, err in (("requestor", r, errors[0]), ("acceptor", a, errors[1])):
+                if sd[0][6]:
+                    ctx.fail("c06:pair:reactor-died-under-admissible-users", f"{nm}'s reactor thread died in a sync-admissible product schedule: {err}", case)
+            if ended(r) and ended(a) and not r[3] and not a[3] and r[2] != a[2]:
+                ctx.fail("c06:pair:provider-outcomes-disagree", f"both reactors ended: requestor {r[2]}, acceptor {a[2]} (admissible users, no send failure, no abort while awaiting a confirmation)", case)
+    if not pending:
+        return
+    reps = ctx.lean([["pair.run", c[2]] for c, _, _ in pending])
+    oks = ctx.lean([["pair.runok", c[2]] for c, _, _ in pending])
+    n_ok = 0
+    for (case, obs, _), rep, ok in zip(pending, reps, oks):
+        if rep == "ERR:args":
+            ctx.diff(case, "real ran", "model rejected the schedule")
+            continue
+        if case[1] == "sync":
+            if ok == "T" or ok is True:
+                n_ok += 1
+            else:
+                ctx.diff(case, "generated as sync-admissible", "Lean Pair.runOk = false", "schedule outside the theorem's hypothesis")
+        for i, (ro, mo) in enumerate(zip(obs, rep)):
+            mo = _canon_pair(mo)
+            for k in (0, 1):
+                if ro[k][0][11] is None:
+                    mo[k][0][11] = None
+            if ro != mo:
+                ctx.diff(case, {"step": i, "after": case[2][i], "obs": ro}, {"obs": mo}, "product lockstep state differs")
+                break
+    ctx.extra["pair_sync_schedules_satisfying_runOk"] = n_ok
+
+
+# ---------------------------------------------------------------------------------------------
+# the pause handshake (reactor checkpoint vs release()/send_*): the model's witness schedule, forced
+# on the real threads
+# ---------------------------------------------------------------------------------------------
+def pause_scenario(mode="collision"):
+    """mode "overlap": park the reactor right after `_reactor_checkpoint.wait()` returned (flag still True), let
+    `release()` in a second thread pass its pause check and park it there (hook `assoc.release`), let the reactor
+    go and watch whether it executes its iteration body (first statement: `dimse.get_msg(block=False)`) while the
+    user thread is inside its section.  Deterministic, no peer involved.
+    mode "collision": the consequence.  Force the interleaving `reactor reactor user user reactor` of Model/Pause.lean on a real requestor
+    association: the reactor is parked right after `_reactor_checkpoint.wait()` returned (flag still True),
+    `release()` runs in a second thread up to its first wait for the peer's answer, the peer releases too
+    (collision), then the reactor is let go.  Returns what happened."""
+    import threading
+    import time
+
+    from pynetdicom import AE, _verif, evt
+    from pynetdicom.sop_class import Verification
+
+    e2e.quiet()
+
+    class GateEvent(threading.Event):
+        def __init__(self):
+            super().__init__()
+            self.set()
+            self.armed, self.reactor = False, None
+            self.in_window, self.go = threading.Event(), threading.Event()
+
+        def wait(self, timeout=None):
+            r = super().wait(timeout)
+            if self.armed and threading.current_thread() is self.reactor:
+                self.armed = False
+                self.in_window.set()
+                self.go.wait(5)
+            return r
+
+    park_t2, t2_parked = threading.Event(), threading.Event()
+
+    def cb(name, obj):
+        point = "assoc.release" if mode == "overlap" else "acse.release_wait"
+        if name == point and threading.current_thread().name == "verif-T2" and not t2_parked.is_set():
+            t2_parked.set()
+            park_t2.wait(5)
+
+    out = {}
+    acc = {}
+    ae = AE()
+    ae.add_supported_context(Verification)
+    ae.acse_timeout = ae.dimse_timeout = ae.network_timeout = 1.5
+    srv = ae.start_server(("127.0.0.1", 0), block=False, evt_handlers=[(evt.EVT_ESTABLISHED, lambda e: acc.__setitem__("a", e.assoc))])
+    hist = []
+    try:
+        cl = AE()
+        cl.add_requested_context(Verification)
+        cl.acse_timeout = cl.dimse_timeout = cl.network_timeout = 1.5
+        R = cl.associate(
+            "127.0.0.1", srv.socket.getsockname()[1],
+            evt_handlers=[(evt.EVT_RELEASED, lambda e: hist.append(("released", threading.current_thread().name))),
+                          (evt.EVT_ABORTED, lambda e: hist.append(("aborted", threading.current_thread().name)))],
+        )
+        if not R.is_established:
+            return {"error": "not established"}
+        time.sleep(0.05)
+        _verif.install(cb)
+        g = GateEvent()
+        g.reactor = R
+        R._reactor_checkpoint = g
+        g.armed = True
+        if not g.in_window.wait(3):
+            return {"error": "the reactor did not reach its checkpoint"}
+        t2 = threading.Thread(target=R.release, name="verif-T2", daemon=True)
+        t2.start()
+        out["user_passed_pause_check"] = t2_parked.wait(1.0)   # with a stale flag it does, at once
+        if mode == "overlap":
+            body_calls = []
+            real_get = R.dimse.get_msg
+
+            def spy(block=False):
+                if threading.current_thread() is R:
+                    body_calls.append(time.monotonic())
+                return real_get(block)
+
+            R.dimse.get_msg = spy
+            g.go.set()
+            time.sleep(0.25)
+            out["reactor_ran_body_during_user_section"] = bool(out["user_passed_pause_check"] and body_calls)
+            R.dimse.get_msg = real_get
+            park_t2.set()
+            t2.join(6)
+            time.sleep(0.2)
+            out.update(is_released=R.is_released, is_aborted=R.is_aborted, events=[h[0] for h in hist], threads=[h[1] for h in hist])
+            return out
+        ta = threading.Thread(target=acc["a"].release, name="verif-TA", daemon=True)
+        ta.start()
+        t0 = time.monotonic()
+        while time.monotonic() - t0 < 1.0 and R.dul.to_user_queue.qsize() == 0 and out["user_passed_pause_check"]:
+            time.sleep(0.005)
+        g.go.set()  # the reactor leaves wait()
+        time.sleep(0.3)
+        # overlap: the reactor ran its body (answered the peer's release) while the user thread is inside release()
+        out["reactor_ran_body_during_user_section"] = bool(out["user_passed_pause_check"] and not park_t2.is_set() and R.is_released)
+        park_t2.set()
+        t2.join(6)
+        ta.join(6)
+        time.sleep(0.3)
+        out.update(is_released=R.is_released, is_aborted=R.is_aborted, events=[h[0] for h in hist], threads=[h[1] for h in hist])
+        return out
+    finally:
+        _verif.install(None)
+        srv.shutdown()
+
+
+def pause_check(ctx):
+    import multiprocessing as mp
+
+    from translate import pause as tr_pause
+
+    shape, _ = tr_pause.extract()
+    pool = mp.get_context("fork").Pool(processes=2, maxtasksperchild=1)
+    try:
+        results = pool.map(pause_scenario, ["overlap"] * 2 + ["collision"] * ctx.n(2, 8))
+    finally:
+        pool.terminate()
+        pool.join()
+    sched = ["reactor", "reactor", "user", "user", "reactor", "reactor"]
+    m = ctx.lean([["pause.run", shape == "recheck", sched]])[0]
+    model_overlap = m[4] == "T" or m[4] is True
+    for i, r in enumerate(results):
+        mode = "overlap" if i < 2 else "collision"
+        case = ["pause-handshake", mode, sched]
+        ctx.case(case, nontrivial=True, kind="pause-handshake:forced-stale-wakeup:" + mode)
+        if "error" in r:
+            ctx.diff(case, r, "n/a", "pause-handshake scenario failed")
+            continue
+        if mode == "overlap" and r["reactor_ran_body_during_user_section"] != model_overlap:
+            ctx.diff(case, {"overlap": r["reactor_ran_body_during_user_section"]}, {"overlap": model_overlap},
+                     "reactor body vs user section overlap differs from Model/Pause.lean")
+        if mode == "overlap" and r["reactor_ran_body_during_user_section"]:
+            ctx.fail("c06:pause-handshake:reactor-body-overlaps-user-section",
+                     "release() passed its pause check on a stale _is_paused and the reactor then executed its iteration body "
+                     "(dimse.get_msg / release / abort checks) while release() was in progress: both threads consume the peer's "
+                     "messages (the collision runs of this scenario show the consequence: two terminal outcomes on one side)", case)
+        if (r["is_released"] and r["is_aborted"]) or len(r["events"]) != 1:
+            ctx.fail("c06:requestor-not-exactly-one-terminal-outcome:stale-pause-handshake",
+                     f"release() ran while the reactor was not parked at its checkpoint: is_released={r['is_released']} "
+                     f"is_aborted={r['is_aborted']} terminal events {list(zip(r['events'], r['threads']))}", case)
+
+
 def replay(ctx, case):
     import random
 
     c = case["case"]
+    if c[0] == "pause-handshake":
+        r = pause_scenario(c[1] if len(c) > 2 else "collision")
+        print(r)
+        return 1 if (r.get("is_released") and r.get("is_aborted")) or len(r.get("events", [])) != 1 else 0
+    if c[0] == "pair":
+        from harness.pairlock import RealPair
+
+        rp = RealPair()
+        try:
+            rep = ctx.lean([["pair.run", c[2]]])[0]
+            bad = 0
+            for st, mo in zip(c[2], rep):
+                rp.step(st)
+                ro, mo = rp.obs(), _canon_pair(mo)
+                for k in (0, 1):
+                    if ro[k][0][11] is None:
+                        mo[k][0][11] = None
+                print(st, "\n   real ", ro, "\n   model", mo)
+                bad += ro != mo
+            fin = rp.obs()
+            print("errors:", rp.r.errors, rp.a.errors, "outcomes:", fin[0][2], fin[1][2])
+            return 1 if bad or rp.r.errors or rp.a.errors or fin[0][2] != fin[1][2] else 0
+        finally:
+            rp.close()
     sc = c[1]
     bad = 0
     for i in range(10):
